@@ -143,10 +143,9 @@ class Task (BaseTask):
     BaseTask.__init__(self)
 
   def run (self):
-    g = self.target(*self.args, **self.kwargs)
-    x = g.send(None)
-    while True:
-      x = g.send((yield x))
+    # Run the target generator itself, so that values *and* exceptions the
+    # scheduler delivers reach it (and its end is a normal end)
+    return self.target(*self.args, **self.kwargs)
 
   def __str__ (self):
     return "<%s %s tid:%s>" % (type(self).__name__,
